@@ -3,8 +3,90 @@
 package ctlog
 
 import (
+	"context"
+	"io/fs"
 	"os"
+	"path/filepath"
+
+	"crawshaw.io/sqlite"
+	"crawshaw.io/sqlite/sqlitex"
+	"filippo.io/sunlight/internal/immutable"
 )
+
+// simAttachRealStores makes every operation the model applies also hit a real
+// LocalBackend directory and a real SQLite lock database (created with the
+// schema from the README). The returned function releases them.
+func simAttachRealStores(s *simSys, dir string) func() {
+	logDir := filepath.Join(dir, "localbackend")
+	lb, err := NewLocalBackend(context.Background(), logDir, simDiscardLog)
+	if err != nil {
+		panic("VERIF-INCONCLUSIVE: " + err.Error())
+	}
+	dbPath := filepath.Join(dir, "lock.db")
+	conn, err := sqlite.OpenConn(dbPath, 0)
+	if err != nil {
+		panic("VERIF-INCONCLUSIVE: " + err.Error())
+	}
+	if err := sqlitex.ExecTransient(conn, "CREATE TABLE checkpoints (logID BLOB PRIMARY KEY, body BLOB NOT NULL) STRICT", nil); err != nil {
+		panic("VERIF-INCONCLUSIVE: " + err.Error())
+	}
+	conn.Close()
+	sb, err := NewSQLiteBackend(context.Background(), dbPath, simDiscardLog)
+	if err != nil {
+		panic("VERIF-INCONCLUSIVE: " + err.Error())
+	}
+	s.w.realB, s.w.realL = lb, sb
+	return func() {
+		sb.conn.Close()
+		// as root the immutable inode flag is really set on immutable objects: clear it so the directory can be removed
+		filepath.WalkDir(logDir, func(p string, d fs.DirEntry, err error) error {
+			if err == nil && !d.IsDir() {
+				if f, err := os.Open(p); err == nil {
+					immutable.Unset(f)
+					f.Close()
+				}
+			}
+			return nil
+		})
+	}
+}
+
+// simCompareRealDir checks that the real directory holds exactly the model's objects.
+func simCompareRealDir(s *simSys, dir string) error {
+	logDir := filepath.Join(dir, "localbackend")
+	objs := s.w.snapshotObjs()
+	seen := 0
+	err := filepath.WalkDir(logDir, func(p string, d fs.DirEntry, err error) error {
+		if err != nil || d.IsDir() {
+			return err
+		}
+		rel, _ := filepath.Rel(logDir, p)
+		b, err := os.ReadFile(p)
+		if err != nil {
+			return err
+		}
+		want, ok := objs[filepath.ToSlash(rel)]
+		if !ok {
+			return &simDirErr{"unexpected file " + rel + " in the LocalBackend directory"}
+		}
+		if string(b) != string(want) {
+			return &simDirErr{"file " + rel + " differs from the object the server uploaded"}
+		}
+		seen++
+		return nil
+	})
+	if err != nil {
+		return err
+	}
+	if seen != len(objs) {
+		return &simDirErr{"the LocalBackend directory lacks objects the server uploaded"}
+	}
+	return nil
+}
+
+type simDirErr struct{ s string }
+
+func (e *simDirErr) Error() string { return e.s }
 
 func simTempDir() (string, func()) {
 	base := ""
@@ -22,3 +104,12 @@ func simTempDir() (string, func()) {
 }
 
 func mkdirAll(d string) error { return os.MkdirAll(d, 0o755) }
+
+
+// simWantReal: thorough tier mirrors one case in ten onto real stores; VERIF_REAL=1 forces it.
+func simWantReal(draw int) bool {
+	if os.Getenv("VERIF_REAL") != "" {
+		return true
+	}
+	return os.Getenv("VERIF_TIER") == "thorough" && draw == 0
+}
